@@ -982,6 +982,8 @@ class VectorExpression:
             >>> d.evaluate({"x[0]": 1, "x[1]": 2, "x[2]": 3, "y[0]": 4, "y[1]": 5, "y[2]": 6})
             32.0
         """
+        if isinstance(other, (np.ndarray, list)):
+            return self @ other  # constant coefficients: same as expr @ array
         return DotProduct(self, other)
 
     def __matmul__(
@@ -1335,6 +1337,9 @@ class VectorVariable:
                 if other.vector is self or other.vector.name == self.name:
                     # This is x.dot(A @ x) - return QuadraticForm for O(1) gradient
                     return QuadraticForm(self, other.matrix)
+
+        if isinstance(other, (np.ndarray, list)):
+            return self @ other  # constant coefficients: same as x @ array
 
         return DotProduct(self, other)
 
